@@ -344,3 +344,15 @@ func (h *VHist) ApplyWrite(op VOp) error {
 func (ds *Dataset) VFullSyncState() string {
 	return fmt.Sprintf("started=%v id=%q lease=%v seen=%d", ds.fullSyncStarted, ds.fullSyncID, ds.fullSyncLease != nil, len(ds.fullSyncSeen))
 }
+
+// VNsTable copies the namespace manager's own prefix -> expansion map (not what an accessor hands out).
+func VNsTable(s *Store) map[string]string {
+	nm := s.NamespaceManager
+	nm.lock.Lock()
+	defer nm.lock.Unlock()
+	out := map[string]string{}
+	for k, v := range nm.prefixToExpansionMapping {
+		out[k] = v
+	}
+	return out
+}
